@@ -56,7 +56,41 @@ def strip_model(v):
     return v
 
 
+def check_typed_strings(case):
+    """cast_strategy='strings' on a source that delivers typed values: every cell comes out as text (str(value))."""
+    import decimal
+    import datetime
+    # (field names in alphabetical order: JSON dumps with another order do not load back at all - C03's recorded finding)
+    rows = [{'a_i': 0, 'b_n': decimal.Decimal('0.0'), 'c_b': False, 'd_s': '', 'e_d': datetime.date(2020, 1, 2), 'f_z': None},
+            {'a_i': 7, 'b_n': decimal.Decimal('1.50'), 'c_b': True, 'd_s': 'x', 'e_d': None, 'f_z': None},
+            {'a_i': None, 'b_n': 0.0, 'c_b': None, 'd_s': '0', 'e_d': datetime.date(1, 1, 1), 'f_z': None}][:case['n']]
+    st = core.mkstate([('t', [('a_i', 'integer'), ('b_n', 'number'), ('c_b', 'boolean'), ('d_s', 'string'), ('e_d', 'date'), ('f_z', 'string')], rows)])
+    form = case['form']
+    label = 'load(%s holding typed rows %r, cast_strategy=strings)' % (form, rows)
+    with core.scratch_dir() as d:
+        try:
+            if form == 'tuple':
+                step = core.dataflows.load((copy.deepcopy(st.desc), [iter(copy.deepcopy(r)) for r in st.rows]), cast_strategy='strings')
+            else:
+                core.Flow(core.from_state(st), core.dataflows.dump_to_path(os.path.join(d, 'pkg'), format=case.get('fmt', 'json'))).process()
+                step = core.dataflows.load(os.path.join(d, 'pkg', 'datapackage.json'), cast_strategy='strings')
+            out = core.materialise(step, via='results_raw')
+        except core.CaseTimeout:
+            raise
+        except Exception as e:
+            return [('typed-strings-raises/%s' % form, '%s raises %s: %s' % (label, core.exc_sig(e), str(e)[:100]))], 'violated', True
+    bad = [(k, v) for r in out.rows[0] for k, v in r.items() if not isinstance(v, str)]
+    viol = []
+    if bad:
+        viol.append(('non-string-value/typed-source', '%s: cells %r are not text' % (label, bad[:4])))
+    elif form == 'tuple' and [{k: str(v) for k, v in r.items()} for r in rows] != out.rows[0]:
+        viol.append(('cell-values/typed-strings', '%s: rows %r' % (label, out.rows[0])))
+    return viol, 'ok' if not viol else 'violated', True
+
+
 def check(case):
+    if case.get('kind') == 'typed_strings':
+        return check_typed_strings(case)
     if case.get('kind') == 'package':
         return check_package(case)
     header, lines, crlf, cfg = case['header'], case['lines'], case['crlf'], case['cfg']
@@ -291,6 +325,10 @@ def cases(tier):
             for strip in (True, False):
                 out.append({'header': ['d1', 'd2'], 'lines': [list(x) for x in t], 'crlf': False,
                             'cfg': {'cast': 'schema', 'override_dates': True, 'strip': strip}})
+    for n in (1, 2, 3):
+        out.append({'kind': 'typed_strings', 'form': 'tuple', 'n': n})
+        for fmt in ('json', 'csv'):
+            out.append({'kind': 'typed_strings', 'form': 'datapackage.json', 'fmt': fmt, 'n': n})
     from . import c10
     for names in (['a', 'ab', 'a.b'], ['aXb', 'a.b', 'a'], ['a']):
         for _, sel in c10.SELECTORS:
